@@ -17,7 +17,9 @@ RULE = ("grammar-generated Newick and NEXUS documents (0-4 TREES blocks, TITLE/L
         "unknown blocks in between, comments at every capture position, [&R]/[&U], [&W], metadata comments, blank nodes, "
         "quoted/underscored/case-variant labels) x reader options (rooting, weights, metadata, underscores, taxa "
         "suppression); every third document is followed by a second source of the same layout and every third by a second NEXUS "
-        "source with a layout of its own (no TAXA block, new taxa, TRANSLATE or not), read through every several-source route; "
+        "source with a layout of its own (no TAXA block, new taxa, TRANSLATE or not), read through every several-source route; every "
+        "fourth by a document with a character block and a SETS block of CHARSET statements (ranges, steps, single positions, ALL first / "
+        "last / middle / absent) in front of TREES blocks whose trees carry hyphens in lengths, labels and comments; "
         "four source-keyword combinations per document (data/string/file/stream/path, two keywords, none, no schema, missing path, "
         "get and read); TreeArray.read with and without burn-in and weights; NeXML documents written from them; thorough adds every "
         "document of a small grammar; non-trivial = at least 2 trees or at least 2 tree blocks in the source")
@@ -413,6 +415,15 @@ def check_tree_routes(ctx, dendropy, doc, mode, tmpdir, full=True):
             case.fail("route", name, "collections of sizes %s, DataSet.get gives %s" % ([len(x) for x in b], [len(x) for x in blocks]))
     if blocks is None:
         return case, ref, None
+    if schema == "nexus":
+        # the data set route told to skip character and SETS blocks: the same trees again
+        def ds_excl():
+            k = R._kw("data", exclude_chars=True)
+            ds = dendropy.DataSet.get(**k)
+            return [t for tl in ds.tree_lists for t in R.recs(tl)]
+        got = case.attempt("DataSet.get(exclude_chars=True)", ds_excl)
+        if got is not None:
+            case.same("DataSet.get(exclude_chars=True)", got, ref)
     if full:
         for how in ("file", "path"):
             r = case.attempt("DataSet.get(%s=)" % how, lambda: R.dataset_blocks(how))
@@ -1536,6 +1547,13 @@ def run(ctx):
                 correspond_multi(ctx, dendropy, doc, doc2, session)
                 ctx.count("second_source:own_layout(taxa_block_first=%s,translate_second=%s)" % (
                     bool(doc["info"].get("taxa_block")), bool(re.search(r"(?i)\btranslate\b", doc2["text"]))))
+            # a character block + a SETS block with CHARSET statements in front of trees full of hyphens (negative lengths,
+            # exponents, labels, comments): the routes that parse the SETS block share one tokenizer with the trees behind it
+            if i % 4 == 2:
+                cdoc = c13docs.gen_charset_doc(rng)
+                if one_document(ctx, dendropy, cdoc, tmpdir, session, full=(i % 8 == 2), kind="charsets-before-hyphen-trees") is not None:
+                    ctx.count("charset_docs:ALL_" + cdoc["info"]["charset_all"] + (",suppress_edge_lengths" if cdoc["opts"].get("suppress_edge_lengths") else ""))
+                    ctx.count("matrix_routes", check_matrices(ctx, dendropy, cdoc, tmpdir))
             # NeXML routes on the implementation
             if i % 4 == 0:
                 x = nexml_of(dendropy, doc)
